@@ -1094,11 +1094,21 @@ fn c06_finish(run: &mut W3Run, sc: &Scenario, t_fault: i64, what: &str, tally: &
             // … except for one END STATE that is recognised whatever led to it: under the PHY that is deaf while
             // it transmits, two stations transmit aligned to within one character time at the end (recorded
             // finding F22: they can never notice each other)
+            // The signature of that end state names the DISTURBANCE KIND and the poll grid that led to it (kind of
+            // disturbance, slot time, poll divisors), so that the same end state
+            // reached from anywhere else — e.g. through a regression of the F19/F20/F21 repairs, whose symptom
+            // under this PHY is the very same end state — is a new violation and not a known finding.
             if sc.deaf {
                 let last: Vec<(u8, i64)> = run.log.iter().rev().take(16).map(|(a, _, s, _)| (*a, *s)).collect();
                 let aligned = last.windows(2).filter(|w| w[0].0 != w[1].0 && (w[0].1 - w[1].1).abs() < 11 * crate::bus::BIT).count();
                 if aligned >= 4 {
-                    sig = "c06.not_recovered.aligned_token_holders.deaf_phy".to_string();
+let dv: Vec<String> = sc.divs.iter().map(|a| a.to_string()).collect();
+                    sig = if kind == "cut" {
+                        // a bus cut makes every station claim a token of its own: whatever the poll grid
+                        "c06.not_recovered.aligned_token_holders.deaf_phy.after_cut".to_string()
+                    } else {
+                        format!("c06.not_recovered.aligned_token_holders.deaf_phy.after_{kind}.slot{}.div_{}", sc.slot_bits, dv.join("_"))
+                    };
                 }
             }
             ctx().violation(
